@@ -1,4 +1,5 @@
 import DEvo.Sql.RebuildLemmas
+import DEvo.Mut.Steps
 import DEvo.Generated.Tables
 
 /-! # C02 — evolutions preserve existing row data (the table rebuild's copy step) -/
@@ -269,5 +270,29 @@ def staleItems : List Item := [.addColumn "seq" (some (.embed "42")), .modifyCol
 theorem C02_cex_stale_embed_flag :
     rowGet (evalRow (plan staleCfg f57Cols staleItems).fieldValues (plan staleCfg f57Cols staleItems).params f57Row)
         "qty" = some "0" ∧ specValue f57Cols staleItems f57Row "qty" = some "7" := by decide
+
+/-! ## renames -/
+
+open DEvo.Mut DEvo.Sig in
+/-- **a rename never loses a column**: after an accepted `RenameField(old, new)` - `old = new` included, which is
+what the optimiser makes of a rename and its reversal - the model has a field called `new`, and every field other
+than the renamed one is still there, unchanged -/
+theorem C02_rename_keeps_fields (old new : String) (c t : Option String) (m m' : ModelSig)
+    (h : simRenameField old new c t m = .ok m') :
+    (∃ g ∈ m'.fields, g.name = new) ∧
+    (∀ g ∈ m.fields, g.name ≠ old → g.name ≠ new → g ∈ m'.fields) := by
+  unfold simRenameField at h
+  cases hf : m.getField old with
+  | none => simp [hf] at h
+  | some f =>
+    simp only [hf, Except.ok.injEq] at h
+    subst h
+    constructor
+    · refine ⟨_, mem_setFieldL_self _ _, rfl⟩
+    · intro g hg ho hn
+      apply mem_setFieldL_other
+      · simp only [ModelSig.removeField, List.mem_filter]
+        exact ⟨hg, by simpa using ho⟩
+      · exact hn
 
 end DEvo.Props.C02
